@@ -2524,7 +2524,7 @@ def search(ctx, broken):
             lam, mu = Fraction(rng.randint(1, 64), 8), Fraction(rng.randint(1, 64), 8)
         elif it % 4 == 2:
             mu = Fraction(rng.uniform(0.1, 200.0))
-            lam = mu * Fraction(rng.uniform(0.0, 40.0))                        # nu up to ~0.49
+            lam = mu * Fraction(rng.uniform(0.0, 40.0) if it % 8 == 2 else 10.0 ** rng.uniform(1.5, 3.3))   # nu -> 1/2
         else:
             lam, mu = Fraction(rng.uniform(0.01, 100.0)), Fraction(rng.uniform(0.01, 100.0))
         tr = _iso_truth(lam, mu)
@@ -2680,8 +2680,11 @@ def _search_scales(ctx, rng, big):
                 ctx.violate(f'roundtrip:{nm}', f'{sysname} * 2^{ex}: ElasticConstants({nm}=ec.{nm}).Cij != ec.Cij ({e})',
                             {'op': 'representations', 'system': sysname, 'kwargs': vals})
     names = ['C11', 'C12', 'C44', 'E', 'nu', 'K']
-    for n in range(ctx.n(6, 60) * big):
-        ex = rng.choice(SCALE_EXPS) if n % 3 else rng.choice(BIG_EXPS)
+    # stratified: small-number unit systems, large-number ones, and the far ends, every run
+    strata = [[-40, -36, -30, -27], [-23, -20, -17, -14], [-13, -12, -10, -7], [7, 10, 14, 17], [20, 27, 33, 40],
+              [-480, -300], [-200, -100], [100, 200, 300, 480]]
+    for n in range(ctx.n(8, 64) * big):
+        ex = rng.choice(strata[n % len(strata)])
         lam = Fraction(rng.randint(1, 64), 8) * Fraction(2) ** ex
         mu = Fraction(rng.randint(1, 64), 8) * Fraction(2) ** ex
         tr = _iso_truth(lam, mu)
@@ -2932,6 +2935,16 @@ def _check_keyword_refusals(ctx, rng, n):
         ctx.stats.case('oracle:keyword-sets', tuple(sorted(keys)), sample=rep)
         want_ok = (not mixed) and _init_admits(keys)
         r, e = _call(lambda: EC(**vals).Cij)
+        if want_ok and e is None and any(k in CIJ_KEYS and k[1] != k[2] and int(k[2]) > 3 for k in keys):
+            # falsy but valid: coupling / optional constants given as zero (float, int, negative zero)
+            z = rng.choice([0.0, 0, -0.0])
+            v0 = {k: (z if (k in CIJ_KEYS and k[1] != k[2] and int(k[2]) > 3) else v) for k, v in vals.items()}
+            r0, e0 = _call(lambda: EC(**v0).Cij)
+            ok0 = e0 is None and all(r0[int(k[1]) - 1, int(k[2]) - 1] == v for k, v in v0.items()
+                                     if k in CIJ_KEYS and not (k == 'C66' and 'C11' in keys and 'C12' in keys))
+            if not ok0:
+                ctx.violate('refusal:spurious:zero', f'ElasticConstants({sorted(keys)}) with the coupling constants given '
+                            f'as {z!r}: {e0 or "constants not stored as given"}', {**rep, 'kwargs': v0})
         if want_ok and e is not None:
             ctx.violate('refusal:spurious:init', f'ElasticConstants({sorted(keys)}) is a documented keyword set but '
                         f'raised {e}', {**rep, 'kwargs': {k: v for k, v in vals.items() if k not in MATRIX_KEYS}})
